@@ -46,15 +46,27 @@ func (k Keeper) LiquidateVaults(ctx sdk.Context, offsetCounterId uint64) error {
 	}
 	// Fetching all  vaults
 	totalVaults := k.vault.GetVaults(ctx)
-	// Getting length of all vaults
-	lengthOfVaults := len(totalVaults)
-	// Creating start and end slice
-	start, end := types.GetSliceStartEndForLiquidations(lengthOfVaults, int(liquidationOffsetHolder.CurrentOffset), int(params.LiquidationBatchSize))
-	if start == end {
-		liquidationOffsetHolder.CurrentOffset = 0
-		start, end = types.GetSliceStartEndForLiquidations(lengthOfVaults, int(liquidationOffsetHolder.CurrentOffset), int(params.LiquidationBatchSize))
+	// The cursor is the id of the last vault the sweep has looked at, not a position in the list: positions shift
+	// whenever a vault in front is seized or closed (a seizure by this very sweep included), ids do not, so no vault
+	// is skipped. GetVaults returns the vaults in ascending id order; the batch is taken in cyclic id order starting
+	// behind the cursor (the vaults behind it first, then the beginning of the list), at most one full round.
+	var newVaults []vaulttypes.Vault
+	for _, vault := range totalVaults {
+		if vault.Id > liquidationOffsetHolder.CurrentOffset {
+			newVaults = append(newVaults, vault)
+		}
 	}
-	newVaults := totalVaults[start:end]
+	for _, vault := range totalVaults {
+		if vault.Id <= liquidationOffsetHolder.CurrentOffset {
+			newVaults = append(newVaults, vault)
+		}
+	}
+	if uint64(len(newVaults)) > params.LiquidationBatchSize {
+		newVaults = newVaults[:params.LiquidationBatchSize]
+	} else {
+		// the batch covers every vault: look at them in list order, as before, whatever the cursor says
+		newVaults = totalVaults
+	}
 	for _, vault := range newVaults {
 		_ = utils.ApplyFuncIfNoError(ctx, func(ctx sdk.Context) error {
 
@@ -69,7 +81,10 @@ func (k Keeper) LiquidateVaults(ctx sdk.Context, offsetCounterId uint64) error {
 		})
 	}
 
-	liquidationOffsetHolder.CurrentOffset = uint64(end)
+	liquidationOffsetHolder.CurrentOffset = 0
+	if len(newVaults) > 0 {
+		liquidationOffsetHolder.CurrentOffset = newVaults[len(newVaults)-1].Id
+	}
 	liquidationOffsetHolder.AppId = offsetCounterId
 	k.SetLiquidationOffsetHolder(ctx, types.VaultLiquidationsOffsetPrefix, liquidationOffsetHolder)
 
